@@ -42,6 +42,9 @@ def check(chk, fx):
     precflow(chk, fx)
     from .. import width
     width.check(chk, fx, classes=("PREC",), minimum=12)      # precedences are signed ints end to end
+    from .. import termrules
+    termrules.termapi(chk, fx)
+    termrules.defarg(chk, fx)
     idxrule.report(chk, fx, lambda q: q.startswith(SA + "solve_conflict") or q.startswith(SA + "transitions") or
                    q.startswith(P + "calculate_rule") or q.startswith(P + "analyze_rule") or
                    q.startswith(P + "analyze_term"), "precedence tables and conflict solver", 5)
